@@ -23,3 +23,42 @@ def hostile_requests(sx, p):
     problems = O.check_hostile(sched, rec)
     sx.observe('problems', problems)
     return not problems
+
+
+VALID = {
+    'json': b'{"work": {"a": 5, "s": "x\\u00e9y"}}',
+    'xml': b'<work xmlns="tns"><a>5</a><s>x&amp;y</s></work>',
+    'soap11': (b'<soap:Envelope xmlns:soap="http://schemas.xmlsoap.org/soap/envelope/"><soap:Body>'
+               b'<work xmlns="tns"><a>5</a><s>x</s></work></soap:Body></soap:Envelope>'),
+}
+
+
+@harness('C10', params=[(proto, tr, lo) for proto in sorted(VALID) for tr in ('server', 'wsgi-chunked')
+                        for lo in range(0, 160, 40)],
+         label=lambda p: '%s %s cut>=%d' % p,
+         functions=['spyne.protocol.json.JsonDocument.create_in_document', 'spyne.protocol.xml.XmlDocument.create_in_document',
+                    'spyne.protocol.soap.soap11.Soap11.create_in_document', 'spyne.protocol.soap.soap11._from_soap',
+                    'spyne.protocol.dictdoc._base.DictDocument.decompose_incoming_envelope'],
+         bounds={'requests': 'every proper prefix of one valid request per protocol (concrete enumeration of all cut positions)'})
+def truncated_prefixes(sx, p):
+    """every prefix truncation of a valid request ends in a normal response or a Client fault"""
+    proto, transport, lo = p
+    body = VALID[proto]
+    cuts = [c for c in range(lo, lo + 40) if c < len(body)]
+    if not cuts:
+        sx.outside('no cut positions in this shard')
+    cut = sx.choose('cut', cuts)
+    app = P.get_app(proto)
+    rec = P.Record()
+    del P.TRACE[:]
+    P.BEHAVE.clear()
+    env = {'CONTENT_TYPE': 'text/xml'} if proto == 'soap11' else {}
+    if transport == 'server':
+        P._run_server(app, body[:cut], env, rec)
+    else:
+        P._run_wsgi(app, body[:cut], env, rec, chunked=True)
+    rec.trace = list(P.TRACE)
+    problems = O.check_hostile({'proto': proto, 'transport': transport, 'request': 'truncated', 'stage': 'none',
+                                'level': None}, rec)
+    sx.observe('problems', problems)
+    return not problems
